@@ -250,6 +250,7 @@ def specs(tier):
     add("gd-lmi-sym", lmis=['sym2'])
     add("gd-lmi-nonsym", lmis=['nonsym2'])
     add("gd-lmi-mirrored", lmis=['nonsym2b'])
+    add("gd-lmi-nonsym-constants", lmis=['nonsym-const'])
     add("gd-lmi-one", lmis=['one'])
     add("convex-prox", fclass='convex', steps=['prox'], metrics=2)
     add("scl-grad", fclass='scl')
